@@ -272,7 +272,7 @@ def note_sequence_to_pretty_midi(
   # Populate tempos.
   # TODO(douglaseck): Update this code if pretty_midi adds the ability to
   # write tempo.
-  for seq_tempo in sequence.tempos:
+  for seq_tempo in sorted(sequence.tempos, key=lambda t: t.time):
     # Skip if this tempo was added in the PrettyMIDI constructor.
     if seq_tempo == initial_seq_tempo:
       continue
